@@ -38,6 +38,8 @@ const OPS: [&str; 11] = [
 #[derive(Clone, Serialize, Deserialize)]
 struct CaseInfo {
     op: String,
+    #[serde(default)]
+    sqlite: bool,
     account_id: String,
     ids: BTreeMap<String, String>,
     before: BTreeMap<String, Vec<String>>,
@@ -47,8 +49,8 @@ struct CaseInfo {
     error: Option<String>,
 }
 
-async fn logs_of(dir: &Path, account_id: AccountId) -> Result<BTreeMap<String, Vec<String>>> {
-    let dev = Dev::open(dir, Backend::Fs, account_id, vkit::acct::password()).await?;
+async fn logs_of(dir: &Path, account_id: AccountId, backend: Backend) -> Result<BTreeMap<String, Vec<String>>> {
+    let dev = Dev::open(dir, backend, account_id, vkit::acct::password()).await?;
     let folders: Vec<VaultId> = dev.account.list_folders().await?.iter().map(|s| *s.id()).collect();
     let mut out = BTreeMap::new();
     for (n, recs) in all_logs(&dev.account, &folders).await? {
@@ -58,13 +60,14 @@ async fn logs_of(dir: &Path, account_id: AccountId) -> Result<BTreeMap<String, V
     Ok(out)
 }
 
-async fn stage1(op: &str, shared: &Path, stride: usize) -> CaseInfo {
-    let mut info = CaseInfo { op: op.to_string(), account_id: String::new(), ids: BTreeMap::new(), before: BTreeMap::new(), after: BTreeMap::new(), images: vec![], effects: vec![], error: None };
+async fn stage1(op: &str, sqlite: bool, shared: &Path, stride: usize) -> CaseInfo {
+    let backend = if sqlite { Backend::Db } else { Backend::Fs };
+    let mut info = CaseInfo { op: op.to_string(), sqlite, account_id: String::new(), ids: BTreeMap::new(), before: BTreeMap::new(), after: BTreeMap::new(), images: vec![], effects: vec![], error: None };
     let r: Result<()> = async {
-        let base = shared.join(format!("case-{}", op));
+        let base = shared.join(format!("case-{}-{}", op, backend.name()));
         let pre = base.join("pre");
         clock::install();
-        let mut dev = Dev::create(&pre, Backend::Fs, "crash-account", true).await?;
+        let mut dev = Dev::create(&pre, backend, "crash-account", true).await?;
         let default = dev.account.default_folder().await.unwrap();
         let f1 = dev.account.create_folder(NewFolderOptions::new("folder-one".into())).await?.folder;
         let mut ids = BTreeMap::new();
@@ -82,7 +85,7 @@ async fn stage1(op: &str, shared: &Path, stride: usize) -> CaseInfo {
         dev.close().await;
         info.account_id = account_id.to_string();
         info.ids = ids.clone();
-        info.before = logs_of(&pre, account_id).await?;
+        info.before = logs_of(&pre, account_id, backend).await?;
         // logs_of signs in on `pre`: take the pristine copy afterwards so
         // that pre == what the driver starts from
         let pristine = base.join("pristine");
@@ -91,8 +94,71 @@ async fn stage1(op: &str, shared: &Path, stride: usize) -> CaseInfo {
         fsutil::copy_dir(&pristine, &live)?;
         let ids_file = base.join("ids.json");
         std::fs::write(&ids_file, serde_json::to_vec(&ids)?)?;
-        let trace = base.join("trace.log");
         let drv = std::env::current_exe()?.with_file_name("crashdrv");
+        let imgs = base.join("images");
+        if sqlite {
+            // SQLite: the unit of atomicity the repository controls is the
+            // transaction; SQLite's own recovery is trusted. The driver
+            // exits without closing, every WAL prefix (each frame boundary
+            // and one byte either side) is a crash image.
+            let st = std::process::Command::new(&drv)
+                .arg(&live).arg("sqlite").arg(account_id.to_string()).arg(op).arg(&ids_file)
+                .env_remove("VKIT_WORKER")
+                .stdout(std::process::Stdio::null())
+                .status()?;
+            if !st.success() {
+                return Err(anyhow!("driver exited with {:?}", st));
+            }
+            let db_rel = Path::new("accounts.db");
+            let find = |root: &Path| -> Option<PathBuf> {
+                fsutil::walk_files(root).into_iter().find(|p| p.file_name().map(|n| n == db_rel.as_os_str()).unwrap_or(false))
+            };
+            let live_db = find(&live).ok_or_else(|| anyhow!("no database file"))?;
+            let rel = live_db.strip_prefix(&live)?.to_path_buf();
+            let wal_path = PathBuf::from(format!("{}-wal", live_db.display()));
+            let wal = std::fs::read(&wal_path).unwrap_or_default();
+            let dbb = std::fs::read(&live_db)?;
+            let pristine_db = std::fs::read(pristine.join(&rel))?;
+            if dbb != pristine_db {
+                return Err(anyhow!("the database file changed during the operation (a checkpoint ran): WAL prefixes are not the whole story"));
+            }
+            let ps = {
+                let v = u16::from_be_bytes([dbb[16], dbb[17]]) as usize;
+                if v == 1 { 65536 } else { v }
+            };
+            let frame = 24 + ps;
+            let mut cuts: Vec<usize> = vec![0];
+            let mut off = 32;
+            let mut k = 0;
+            while off <= wal.len() {
+                for c in [off.saturating_sub(1), off, off + 1] {
+                    if c <= wal.len() {
+                        cuts.push(c);
+                    }
+                }
+                off += frame;
+                k += 1;
+            }
+            cuts.push(wal.len());
+            cuts.sort();
+            cuts.dedup();
+            std::fs::create_dir_all(&imgs)?;
+            let mut images = vec![];
+            for (i, c) in cuts.iter().enumerate() {
+                let d = imgs.join(format!("img-{:03}", i));
+                fsutil::copy_dir(&pristine, &d)?;
+                let wp = PathBuf::from(format!("{}-wal", d.join(&rel).display()));
+                std::fs::write(&wp, &wal[..*c])?;
+                let _ = std::fs::remove_file(PathBuf::from(format!("{}-shm", d.join(&rel).display())));
+                let frames = if *c >= 32 { (*c - 32) / frame } else { 0 };
+                let torn = *c >= 32 && (*c - 32) % frame != 0;
+                images.push(json!({"dir": d.to_string_lossy(), "effect_index": if *c == 0 { 0 } else { i }, "effect": format!("wal({} frames of {})", frames, k.max(1) - 1), "torn_bytes": if torn { Some((*c - 32) % frame) } else { None }}));
+            }
+            info.images = images;
+            info.effects = vec![format!("{} WAL frames", (wal.len().saturating_sub(32)) / frame)];
+            // the after state: let SQLite recover the full WAL
+        } else {
+        let trace = base.join("trace.log");
         let st = std::process::Command::new("strace")
             .args(["-f", "-y", "-xx", "-s", "16777216", "-o"])
             .arg(&trace)
@@ -109,7 +175,6 @@ async fn stage1(op: &str, shared: &Path, stride: usize) -> CaseInfo {
         if !st.success() {
             return Err(anyhow!("driver under strace exited with {:?}", st));
         }
-        let imgs = base.join("images");
         let py = PathBuf::from("/verif/py/crashimg.py");
         let st = std::process::Command::new("python3")
             .arg(&py)
@@ -125,8 +190,9 @@ async fn stage1(op: &str, shared: &Path, stride: usize) -> CaseInfo {
         let man: Value = serde_json::from_slice(&std::fs::read(imgs.join("manifest.json"))?)?;
         info.images = man["images"].as_array().cloned().unwrap_or_default();
         info.effects = man["effects"].as_array().map(|a| a.iter().map(|x| x.as_str().unwrap_or("").to_string()).collect()).unwrap_or_default();
-        info.after = logs_of(&live, account_id).await?;
         let _ = std::fs::remove_file(&trace);
+        }
+        info.after = logs_of(&live, account_id, backend).await?;
         Ok(())
     }
     .await;
@@ -187,7 +253,10 @@ async fn judge(case: &CaseInfo, img: &Value) -> Vec<(String, String)> {
     let dir = PathBuf::from(img["dir"].as_str().unwrap());
     let label = normalise(img["effect"].as_str().unwrap_or(""), case);
     let torn = !img["torn_bytes"].is_null();
-    let point = if img["effect_index"].as_u64() == Some(0) {
+    let point = if case.sqlite {
+        // WAL prefixes: the position is not part of the signature
+        if torn { "sqlite:torn_wal_frame".to_string() } else { "sqlite:wal_prefix".to_string() }
+    } else if img["effect_index"].as_u64() == Some(0) {
         "before_first_effect".to_string()
     } else if torn {
         format!("torn:{}", label)
@@ -196,7 +265,8 @@ async fn judge(case: &CaseInfo, img: &Value) -> Vec<(String, String)> {
     };
     let account_id: AccountId = case.account_id.parse().unwrap();
     clock::install();
-    let mut dev = match Dev::open(&dir, Backend::Fs, account_id, vkit::acct::password()).await {
+    let backend = if case.sqlite { Backend::Db } else { Backend::Fs };
+    let mut dev = match Dev::open(&dir, backend, account_id, vkit::acct::password()).await {
         Ok(d) => d,
         Err(e) => {
             let msg: String = e.to_string().chars().filter(|c| !c.is_ascii_digit()).take(60).collect();
@@ -289,7 +359,7 @@ fn main() {
         let rt = rt();
         match stage.as_str() {
             "cases" => pool::worker_loop(|idx| {
-                let info = rt.block_on(stage1(OPS[idx], &shared, stride));
+                let info = rt.block_on(stage1(OPS[idx % OPS.len()], idx >= OPS.len(), &shared, stride));
                 serde_json::to_value(&info).unwrap()
             }),
             "images" => {
@@ -311,18 +381,18 @@ fn main() {
     let mut opts = PoolOpts::default();
     opts.env.push(("VKIT_SHARED".into(), shared.to_string_lossy().to_string()));
     opts.item_timeout = std::time::Duration::from_secs(300);
-    let res = pool::run_stage("cases", OPS.len(), &opts);
+    let res = pool::run_stage("cases", OPS.len() * 2, &opts);
     let mut cases: Vec<CaseInfo> = vec![];
     for (i, r) in res.into_iter().enumerate() {
         match r {
             pool::ItemResult::Done(v) => {
                 let c: CaseInfo = serde_json::from_value(v).unwrap();
                 if let Some(e) = &c.error {
-                    run.machinery(format!("case {}: {}", OPS[i], e));
+                    run.machinery(format!("case {} ({}): {}", OPS[i % OPS.len()], if i >= OPS.len() { "sqlite" } else { "fs" }, e));
                 }
                 cases.push(c);
             }
-            pool::ItemResult::Crashed(w) => run.machinery(format!("case {}: {}", OPS[i], w)),
+            pool::ItemResult::Crashed(w) => run.machinery(format!("case {}: {}", OPS[i % OPS.len()], w)),
         }
     }
     let mut index: Vec<(usize, usize)> = vec![];
@@ -340,7 +410,7 @@ fn main() {
     for (k, r) in res.into_iter().enumerate() {
         let (c, i) = index[k];
         let case = &cases[c];
-        let e = per_op.entry(case.op.clone()).or_default();
+        let e = per_op.entry(format!("{}{}", case.op, if case.sqlite { ":sqlite" } else { "" })).or_default();
         e.0 += 1;
         match r {
             pool::ItemResult::Done(v) => {
@@ -366,7 +436,7 @@ fn main() {
         run.machinery("vacuous: fewer than 10 crash images");
     }
     run.assume("crash model = process death: completed syscalls persist in order, a write may be cut at any byte; power-loss reordering is out of scope (the code never fsyncs)");
-    run.assume("file-system backend; the SQLite backend relies on SQLite's own transaction recovery (trusted base) and is not enumerated at this commit");
+    run.assume("SQLite backend: SQLite's own recovery is trusted; every WAL prefix (frame boundaries and one byte either side) between the start and the end of the operation is a crash image; the database file itself must not change during the operation (checked)");
     let mut cov = Map::new();
     cov.insert("evaluations".into(), json!(index.len()));
     cov.insert("distinct_nontrivial".into(), json!(index.len().saturating_sub(cases.len())));
